@@ -19,10 +19,27 @@ def run_property(prop, tier, seed, overrides=None, out=print, write=True):
     rules = list(mod.RULES)
     if tier == "thorough":
         rules += list(getattr(mod, "THOROUGH", []))
+    # a rule that cannot read the shape of the code stops *that rule*; the others still run.  If one of them reports a violation
+    # the verdict is that violation (with the unread rule named next to it); without one the run is an ANALYSIS-ERROR as before
+    rule_errors = []
     for rid, fn in rules:
         run.cur_rule = rid
-        fn(run)
+        try:
+            fn(run)
+        except AnalysisError as ex:
+            rule_errors.append((rid, str(ex)))
     run.cur_rule = None
+    if rule_errors:
+        from .report import load_known
+        known = {e["key"] for e in load_known() if e.get("property") == prop and e.get("status") == "known"}
+        errored = {rid for rid, _ in rule_errors}
+        if not any((not o["ok"]) and o["key"] not in known and o["rule"] not in errored for o in run.obs):
+            raise AnalysisError("%s: %s" % rule_errors[0])
+        for rid, msg in rule_errors:
+            out("ANALYSIS-ERROR (rule %s only, the violation below stands): %s" % (rid, msg[:300]))
+            run.notes.append("rule %s stopped: %s" % (rid, msg[:300]))
+            # the obligations the stopped rule did record are incomplete: its floor is not a criterion any more
+            run.floors.pop(rid, None)
     if tier == "thorough" and overrides is None and write:
         from . import selfcheck
         run.cur_rule = "SELF"
